@@ -47,6 +47,11 @@ Next == Submit \/ Take \/ \E i \in 1..N : Start(i) \/ Finish(i)
 Spec == Init /\ [][Next]_vars
 FairSpec == Spec /\ WF_vars(Submit) /\ WF_vars(Take) /\ \A i \in 1..N : WF_vars(Start(i)) /\ WF_vars(Finish(i))
 
+\* refinement: dropping the event log gives PoolWindowInd, whose inductive invariant (window bound, at most W running,
+\* in-order consumption of finished tasks) Apalache discharges for all N, W <= 12 at once
+PW == INSTANCE PoolWindowInd
+RefinesInd == PW!Spec
+
 Quiet == run = {} /\ (raised # 0 \/ cons = N) /\ (\A i \in 1..sub : i \in fin)
 DesignRefinesProps == CallOK(ev, N, W, fail, e2w, Lazy) \/ ~Quiet
 \* safety part of CallOK holds in every prefix, too
